@@ -1,14 +1,15 @@
 #!/bin/bash
 # usage: sweep_seeds.sh [Cxx ...]  — run every seeded change under /verif/seeded/<Cxx>_* against the quick check of its
 # property in a scratch worktree (never /repo itself) and write one line per seed to seeded/RESULTS.tsv
-cd /verif
+V=${VERIF_DIR:-/verif}   # VERIF_DIR: run the sweep in a private copy of /verif (several copies can sweep different properties in parallel)
+cd $V
 props="$@"; [ -z "$props" ] && props=$(ls seeded | grep -o '^C[0-9]*' | sort -u)
 for pid in $props; do
   [ -f harness/props/$(echo $pid | tr C c).py ] || { echo "$pid: no check yet"; continue; }
   for d in seeded/${pid}_*; do
     [ -f $d/patch.diff ] || continue
     if [ -z "${SWEEP_FORCE:-}" ] && grep -q "^$(basename $d)	.*exit=1" seeded/RESULTS.tsv 2>/dev/null; then continue; fi
-    out=$(VERIF_NPROC=${VERIF_NPROC:-8} harness/try_seed_wt.sh $d/patch.diff $pid quick 2>&1)
+    out=$(VERIF_NPROC=${VERIF_NPROC:-8} VERIF_DIR=$V harness/try_seed_wt.sh $d/patch.diff $pid quick 2>&1)
     rc=$(echo "$out" | grep -o 'exit=[0-9]*' | tail -1)
     nv=$(echo "$out" | grep -c '^VIOLATION')
     first=$(echo "$out" | grep '^VIOLATION' | head -1 | sed 's/.*replay=//')
